@@ -54,6 +54,19 @@ def generate(ctx):
         trecs = [("rot%d" % k, pad + syms[k:] + syms[:k] + pad) for k in range(len(syms))]
         cs.append(make_case(cid, measure, qrecs, trecs, rng, {"kind": "grid:" + measure, "nontrivial": True}))
         cid += 1
+    # (a') one long, AT-rich pair: more than 65,535 copies of one base in the target (a per-record tally must not wrap), a
+    # few hundred transitions and transversions so that the base frequencies matter in eq. 7; drawn from a PRNG of its own
+    import random
+    lr = random.Random(77 + ctx.seed)
+    long_ref = ("A" * 95 + "CGTAC") * 700
+    def long_mut():
+        s = list(long_ref)
+        for i in lr.sample(range(len(s)), 900):
+            s[i] = lr.choice([c for c in "ACGT" if c != s[i]])
+        return "".join(s)
+    for measure in (("tn93",) if ctx.tier == "quick" else ("tn93", "raw", "snp")):
+        cs.append(make_case(cid, measure, [("qlong", long_mut())], [("tlong", long_mut())], rng, {"kind": "long:" + measure, "nontrivial": True}))
+        cid += 1
     n = 40 if ctx.tier == "quick" else 600
     for _ in range(n):
         measure = rng.choice(["raw", "snp", "tn93"])
@@ -150,7 +163,7 @@ def extra(ctx, obl, cases, obs):
                     pairs.append((c, i, j, mat[i][j]))
     rng.shuffle(pairs)
     limit = 30 if ctx.tier == "quick" else 400
-    pairs = pairs[:limit]
+    pairs = [p for p in pairs if p[0]["meta"]["kind"].startswith("long:")] + [p for p in pairs if not p[0]["meta"]["kind"].startswith("long:")][:limit]
     _state["tn93_pairs"] = len(pairs)
     _state["tn93_ok"] = 0
     if not pairs:
